@@ -68,8 +68,13 @@ class Rule:
         }
         self.violations.append(v)
 
-    def skip(self, what, why):
+    def skip(self, what, why, count=False):
+        """a site the rule looked at but cannot decide (listed in the evidence as unanalysed).  With `count` it
+        still counts as an instance examined: used by the value-level rules, for which an idiom outside the
+        modelled subset is not a reason to raise an alarm (the structural rules still cover the site)"""
         self.unanalysed.append({"site": what, "why": why})
+        if count:
+            self.instances += 1
 
 
 class Ctx:
